@@ -462,6 +462,12 @@ func (s *Session) Rel(uri string) string {
 	return p
 }
 
+// AnalysedText reads, through the verif hook, the text that the analysis requests on the document are answered
+// from was made of.
+func (s *Session) AnalysedText(rel string) (contents []byte, found bool) {
+	return langserver.VerifAnalysedText(s.Path(rel))
+}
+
 // CachedText reads the server's copy of an open document through the verif hook.
 func (s *Session) CachedText(rel string) ([]byte, bool) {
 	return langserver.VerifCachedText(s.Path(rel))
